@@ -133,6 +133,7 @@ def run_one(sim: Simulator, tape: Tape) -> RunResult:
 # ---------------------------------------------------------------------------------------------
 
 _SIM: Optional[Simulator] = None
+_SAMPLE: set = set()
 
 
 def _chunk(seed: int, start: int, count: int, n_samples: int) -> Dict[str, Any]:
@@ -148,6 +149,7 @@ def _chunk(seed: int, start: int, count: int, n_samples: int) -> Dict[str, Any]:
     seen_classes = set()
     samples = []
     harness = None
+    det: Dict[int, Tuple[str, str]] = {}
     for i in range(start, start + count):
         faulthandler.dump_traceback_later(sim.run_watchdog_s, exit=True)
         tape = Tape.search(seed, sim.property_id, i)
@@ -160,6 +162,10 @@ def _chunk(seed: int, start: int, count: int, n_samples: int) -> Dict[str, Any]:
         if res.outcome == "HARNESS":
             harness = dict(run=i, message=res.message, tape=res.tape)
             break
+        if i in _SAMPLE:
+            # determinism self-test, part 1: the same tape twice in this process
+            again = run_one(sim, Tape.search(seed, sim.property_id, i))
+            det[i] = (res.digest() + ":" + res.outcome, again.digest() + ":" + again.outcome)
         if res.nontrivial:
             d = int(res.digest()[:16], 16)
             if d not in seen:
@@ -176,7 +182,7 @@ def _chunk(seed: int, start: int, count: int, n_samples: int) -> Dict[str, Any]:
             samples.append(dict(run=i, trace=res.trace[:60], tape_len=len(res.tape)))
     return dict(n=sum(outcomes.values()), outcomes=dict(outcomes), stats=dict(out_stats),
                 digests=digests.tobytes(), steps=steps, sim_time=sim_time, viols=viols,
-                samples=samples, harness=harness)
+                samples=samples, harness=harness, det=det)
 
 
 # ---------------------------------------------------------------------------------------------
@@ -273,24 +279,33 @@ def digests_of(sim: Simulator, seed: int, indices: List[int]) -> List[str]:
     return out
 
 
-def determinism_selftest(sim: Simulator, seed: int, indices: List[int], pool_digests: Optional[Dict[int, str]] = None) -> Dict[str, Any]:
-    """Each sampled tape: twice in this process, once in a fresh interpreter under another
-    PYTHONHASHSEED (serial, i.e. another worker count).  All digests must agree."""
-    a = digests_of(sim, seed, indices)
-    b = digests_of(sim, seed, indices)
+def start_fresh_interpreter(sim: Simulator, seed: int, indices: List[int]):
+    """Determinism self-test, part 2: the sampled tapes once more in a fresh interpreter under
+    another PYTHONHASHSEED, serially (i.e. another worker count), concurrently with the search."""
     env = dict(os.environ)
     env["PYTHONHASHSEED"] = "1234567"
     env["VERIF_REEXEC"] = "1"
     env["VERIF_PREPARED"] = json.dumps(getattr(sim, "prepared_state", None))
     cmd = [sys.executable, os.path.join(VERIF_DIR, "check"), sim.property_id, "--digests",
            ",".join(map(str, indices)), "--seed", str(seed)]
-    p = subprocess.run(cmd, env=env, capture_output=True, text=True, timeout=1800)
-    if p.returncode != 0:
-        return dict(ok=False, error=f"fresh interpreter failed: {p.stderr[-2000:]}")
-    c = json.loads(p.stdout.strip().splitlines()[-1])
-    mism = [indices[k] for k in range(len(indices)) if not (a[k] == b[k] == c[k])]
-    return dict(ok=not mism, sampled=len(indices), mismatching_runs=mism[:10],
-                modes=["same process twice", "fresh interpreter, PYTHONHASHSEED=1234567, serial"])
+    return subprocess.Popen(cmd, env=env, stdout=subprocess.PIPE, stderr=subprocess.PIPE, text=True)
+
+
+def finish_determinism(proc, indices: List[int], det: Dict[int, Tuple[str, str]]) -> Dict[str, Any]:
+    try:
+        out, err = proc.communicate(timeout=3600)
+    except subprocess.TimeoutExpired:
+        proc.kill()
+        return dict(ok=False, error="fresh interpreter timed out")
+    if proc.returncode != 0:
+        return dict(ok=False, error=f"fresh interpreter failed: {err[-2000:]}")
+    c = json.loads(out.strip().splitlines()[-1])
+    fresh = dict(zip(indices, c))
+    compared = [i for i in indices if i in det]
+    mism = [i for i in compared if not (det[i][0] == det[i][1] == fresh[i])]
+    return dict(ok=not mism, sampled=len(compared), mismatching_runs=mism[:10],
+                modes=["same tape twice in one worker process",
+                       "fresh interpreter, PYTHONHASHSEED=1234567, serial (other worker count)"])
 
 
 # ---------------------------------------------------------------------------------------------
@@ -365,6 +380,14 @@ def _search(sim: Simulator, tier: str, seed: int, cfg: Dict[str, Any], workers: 
     # warm class-level caches before forking (and before any traced run)
     run_one(sim, Tape.search(seed, sim.property_id, 0))
 
+    global _SAMPLE
+    k = max(1, min(cfg.get("det_sample", 100), total))
+    step = max(1, total // k)
+    sample_idx = list(range(0, total, step))[:k]
+    _SAMPLE = set(sample_idx)
+    det_all: Dict[int, Tuple[str, str]] = {}
+    fresh = start_fresh_interpreter(sim, seed, sample_idx)
+
     ctx = multiprocessing.get_context("fork")
     starts = list(range(0, total, chunk))
     nxt = 0
@@ -389,6 +412,7 @@ def _search(sim: Simulator, tier: str, seed: int, cfg: Dict[str, Any], workers: 
                     for v in r["viols"]:
                         viols.setdefault((v["rule"], v["sig"]), v)
                     samples.extend(r["samples"])
+                    det_all.update({int(a): tuple(b) for a, b in r["det"].items()})
                     if r["harness"] and harness is None:
                         harness = r["harness"]
                 if time.time() - t0 > cfg["wall_cap"] and not capped:
@@ -398,11 +422,13 @@ def _search(sim: Simulator, tier: str, seed: int, cfg: Dict[str, Any], workers: 
                 if capped or harness is not None:
                     nxt = len(starts)
     except cf.process.BrokenProcessPool as e:
+        fresh.kill()
         print(f"HARNESS: worker died (watchdog or crash): {e}", flush=True)
         return 2
 
     n = sum(outcomes.values())
     if harness is not None:
+        fresh.kill()
         print(f"HARNESS failure in run {harness['run']}:\n{harness['message']}", flush=True)
         print(f"tape={harness['tape']}")
         return 2
@@ -410,9 +436,7 @@ def _search(sim: Simulator, tier: str, seed: int, cfg: Dict[str, Any], workers: 
     search_wall = time.time() - t0
 
     # determinism self-test on a sample of the tapes just explored
-    k = min(cfg.get("det_sample", 100), n)
-    step = max(1, n // max(1, k))
-    det = determinism_selftest(sim, seed, list(range(0, n, step))[:k])
+    det = finish_determinism(fresh, sample_idx, det_all)
     if not det["ok"]:
         print(f"HARNESS: determinism self-test failed: {det}", flush=True)
         return 2
